@@ -163,16 +163,16 @@ def trace_zero(p):
 
 
 class GthStub:
-    """scf.gth: one species with s (2 projectors) and p (1 projector) channels -> 5 projector functions.
+    """scf.gth: one species with s (2 projectors) and p (2 projectors) channels -> 2 + 3*2 = 8 projector functions.
     h[l,i,j] are real symbols with h_ij = h_ji (post-condition of read_gth, C12.read_gth.h_symmetric)."""
 
     def __init__(self, at, symmetric=True):
         import numpy as np
 
         C = A.ctx()
-        self.NbetaNL = 5
+        self.NbetaNL = 8
         lmax = 2
-        nproj = [2, 1, 0, 0]
+        nproj = [2, 2, 0, 0]
         h = np.empty((4, 3, 3), dtype=object)
         h.fill(A.ZERO)
         for l in range(lmax):
